@@ -320,7 +320,7 @@ func (ea *functionAnalysisState) transferFunction(instruction ssa.Instruction, g
 		return
 	case *ssa.UnOp:
 		// Check if this is a load operation
-		if _, ok := instr.X.Type().(*types.Pointer); ok && instr.Op == token.MUL {
+		if _, ok := instr.X.Type().Underlying().(*types.Pointer); ok && instr.Op == token.MUL {
 			if lang.IsNillableType(instr.Type()) {
 				g.LoadField(nodes.ValueNode(instr), nodes.ValueNode(instr.X), instr, "", NillableDerefType(instr.Type()))
 			} else if IsEscapeTracked(instr.Type()) {
@@ -330,7 +330,7 @@ func (ea *functionAnalysisState) transferFunction(instruction ssa.Instruction, g
 				}
 			}
 			return
-		} else if _, ok := instr.X.Type().(*types.Chan); ok && instr.Op == token.ARROW {
+		} else if _, ok := instr.X.Type().Underlying().(*types.Chan); ok && instr.Op == token.ARROW {
 			// recv on channel
 			if lang.IsNillableType(instr.Type()) {
 				contentsType := ChannelContentsType(instr.X.Type())
@@ -1569,10 +1569,10 @@ func instructionLocality(instr ssa.Instruction, g *EscapeGraph) *dataflow.Escape
 	case *ssa.Store:
 		return derefsAreLocal(g, g.nodes.ValueNode(instrType.Addr))
 	case *ssa.UnOp:
-		if _, ok := instrType.X.Type().(*types.Pointer); ok && instrType.Op == token.MUL {
+		if _, ok := instrType.X.Type().Underlying().(*types.Pointer); ok && instrType.Op == token.MUL {
 			// Load Op
 			return derefsAreLocal(g, g.nodes.ValueNode(instrType.X))
-		} else if _, ok := instrType.X.Type().(*types.Chan); ok && instrType.Op == token.ARROW {
+		} else if _, ok := instrType.X.Type().Underlying().(*types.Chan); ok && instrType.Op == token.ARROW {
 			// recv on channel
 			return derefsAreLocal(g, g.nodes.ValueNode(instrType.X))
 		}
